@@ -137,6 +137,10 @@ impl Acc {
         *self.counters.entry(key.to_string()).or_insert(0) += 1;
     }
 
+    pub fn counter(&self, key: &str) -> u64 {
+        self.counters.get(key).copied().unwrap_or(0)
+    }
+
     pub fn add(&mut self, key: &str, n: u64) {
         *self.counters.entry(key.to_string()).or_insert(0) += n;
     }
